@@ -128,6 +128,7 @@ def run(ctx):
     d1b(db, rep)
     d2(db, rep)
     scalar_operand_checked(db, rep, "D1h-SCALAR-OPERAND-CHECKED")
+    array_operand_checked(db, rep, "D1j-ARRAY-OPERAND-CHECKED")
     d3c_unroll_bounded(db, rep)
     d1i_divisor_positive(db, rep)
 
@@ -219,6 +220,61 @@ def d3c_unroll_bounded(db, rep, rule="D3c-UNROLL-BOUNDED"):
     if n < 1:
         raise AnalysisBroken("no per-element code generation loop (bounded by constant_n) found")
     return n
+
+
+def array_operand_checked(db, rep, rule):
+    """Load opcodes (ORC_STATIC_OPCODE_LOAD without INVARIANT: loadX, loadoffX, loadupdb/ib, ldres*) read an ARRAY, store
+    opcodes write one: the back ends take the array's address from ex->arrays[variable] (or the pointer register allocated
+    for array variables).  For a temporary that slot holds nothing, so the generated code dereferences garbage although the
+    compile succeeded.  orc_compiler_check_sizes must refuse a TEMP in the array position; its error branches are evaluated
+    as expressions for those two shapes (as in scalar_operand_checked).  Shared with C03: such code reads or writes memory
+    no element of the program refers to."""
+    from exprval import NotPure, evaluate
+    from loops import counted
+    f = db.func("orc_compiler_check_sizes", "orccompiler")
+    rep.saw(f)
+    LOAD, STORE = db.macro_int("ORC_STATIC_OPCODE_LOAD"), db.macro_int("ORC_STATIC_OPCODE_STORE")
+    TEMP = db.enum("ORC_VAR_TYPE_TEMP")
+    errs = []
+    for x in f.walk():
+        if x.k != "IfStmt" or len(x.c) < 2 or x.c[1] is None or not any(y.k == "ReturnStmt" for y in x.c[1].walk()):
+            continue
+        if not any(y.k == "BinaryOperator" and y.op == "=" and (access_path(y.c[0]) or "").endswith("->result") for y in x.c[1].walk()):
+            continue
+        lv = {}
+        for a in x.ancestors():
+            if a.k == "ForStmt":
+                cl = counted(a)
+                if cl:
+                    lv[cl["var"]] = "src" if any(y.k == "MemberExpr" and y.name == "src_size" for y in (a.c[1].walk() if a.c[1] is not None else [])) or \
+                        any(y.k == "MemberExpr" and y.name == "src_size" for y in a.walk()) and not any(y.k == "MemberExpr" and y.name == "dest_size" for y in a.walk()) else \
+                        ("dest" if any(y.k == "MemberExpr" and y.name == "dest_size" for y in a.walk()) and not any(y.k == "MemberExpr" and y.name == "src_size" for y in a.walk()) else "outer")
+        errs.append((x, lv))
+    if len(errs) < 4:
+        raise AnalysisBroken("orc_compiler_check_sizes: only %d error branches found" % len(errs))
+
+    def fires(env, kind):
+        for x, lv in errs:
+            e = dict(env)
+            inner = [v for v, k in lv.items() if k == kind]
+            others = [v for v, k in lv.items() if k in ("src", "dest") and k != kind]
+            if others:
+                continue
+            for v in inner:
+                e[v] = 0
+            try:
+                if evaluate(x.c[0], e):
+                    return x
+            except (NotPure, ValueError, ZeroDivisionError):
+                continue
+        return None
+    base = {"insn->flags": 0, "multiplier": 1, "compiler->vars[].vartype": TEMP, "compiler->vars[].size": 1,
+            "opcode->src_size[]": 1, "opcode->dest_size[]": 1, "opcode->src_size[0]": 1, "opcode->src_size[1]": 0, "opcode->dest_size[0]": 1}
+    for nm, env, kind, ex in (("load", dict(base, **{"opcode->flags": LOAD}), "src", "loadb t2, t1"), ("store", dict(base, **{"opcode->flags": STORE}), "dest", "storeb t1, t2")):
+        rep.check(fires(env, kind) is not None, rule, where(f), "array-operand:%s" % nm,
+                  "a %s opcode whose array operand is a temporary is refused" % nm,
+                  "orc_compiler_check_sizes lets `%s` through - a %s opcode whose array operand is a temporary: the back ends take its address from "
+                  "ex->arrays[variable], which holds nothing for a temporary; the compile succeeds and the code dereferences garbage" % (ex, nm), line=f.line)
 
 
 def scalar_operand_checked(db, rep, rule):
